@@ -479,6 +479,14 @@ def run(ctx, load):
     ctx.floor('C16.heap-only', 12)
     check_refusal_covers_mutation(P, ctx, 'src/String.c', 'val', 'C16.heap-only', 'String')
     ctx.floor('C16.heap-only', 18)
+    # hash is a function of the characters alone: hash_data reads inside the value and hashes the same bytes the same at any address (C10)
+    from .rules_c10 import check_hash_data
+    Ph = load(None, 'default')
+    ctx.config = 'default'
+    ctx.borrow('C16.hash-of-the-characters', 2, lambda: check_hash_data(Ph, ctx))
+    # a String shown at a position other than 0 is written there: show threads the position (C14)
+    from .rules_c14 import check_position_threaded
+    ctx.borrow('C16.show-threads-the-position', 1, lambda: check_position_threaded(Ph, ctx), only=lambda o: o['key'].startswith('String'))
     check_sizes(P, ctx)
     check_search(P, ctx)
     check_rem_extent(P, ctx)
